@@ -1,5 +1,7 @@
 """fidget-core/src/shape/mod.rs and var/mod.rs: transform siblings, axis binding,
 argument checks, scratch sizing (shared by C03, C05, C10, C11, C14)."""
+import re
+
 import sympy as sp
 
 from . import ast as A
@@ -294,9 +296,10 @@ def r_arg_checks(rule, root=None):
     for i in A.find(b["body"], "If"):
         c = A.ftxt(A.strip(i["cond"]))
         tt_ = str(A.ftxt(i["then"]))
-        if c in ("(x.len()!=y.len())", "(x.len()!=z.len())", "(y.len()!=x.len())", "(z.len()!=x.len())") and ("returnErr(ShapeBulkEvalError::MismatchedVarSlices" in tt_ or "Err(ShapeBulkEvalError::MismatchedVarSlices" in tt_):
+        if c in ("(x.len()!=y.len())", "(x.len()!=z.len())", "(y.len()!=x.len())", "(z.len()!=x.len())", "(y.len()!=z.len())", "(z.len()!=y.len())") and ("returnErr(ShapeBulkEvalError::MismatchedVarSlices" in tt_ or "Err(ShapeBulkEvalError::MismatchedVarSlices" in tt_):
             errs.append(c)
-    if len(errs) == 2:
+    pairs = {frozenset(re.findall(r"\b([xyz])\.len\(\)", c_)) for c_ in errs}
+    if len(errs) == 2 and pairs == {frozenset("xy"), frozenset("xz")} or len(errs) == 2 and pairs in ({frozenset("xy"), frozenset("yz")}, {frozenset("xz"), frozenset("yz")}):
         rule.ok("ShapeBulkEval::eval_raw: x/y and x/z length mismatches are errors", file=SHAPE, line=b["ln"])
     else:
         rule.bad("shape-bulk|lengths", "ShapeBulkEval::eval_raw must reject x/y and x/z length mismatches with an error value", A.where(b))
